@@ -49,3 +49,58 @@ pub proof fn lemma_alt_reads_ge<'s>(v: Version, tail: Seq<char>, i: &'s str, o: 
         lemma_same_key_same_order(kx, key(v), w);
     }
 }
+// the same for every operator: `>v`, `>=v`, `<v`, `<=v`
+pub open spec fn op_admits(op: Operation, kv: VKey, w: VKey) -> bool {
+    match op {
+        Operation::GreaterThanEquals => kcmp(kv, w) != Ordering::Greater,
+        Operation::GreaterThan => kcmp(kv, w) == Ordering::Less,
+        Operation::LessThan => kcmp(w, kv) == Ordering::Less,
+        Operation::LessThanEquals => kcmp(w, kv) != Ordering::Greater,
+        Operation::Exact => kcmp(kv, w) == Ordering::Equal,
+    }
+}
+pub proof fn lemma_alt_reads_primitive<'s>(op: Operation, v: Version, tail: Seq<char>, i: &'s str, o: Vec<BoundSet>, rest: &'s str)
+    requires op != Operation::Exact, wf_version(v), ends_alternative(tail), i@ == op_text(op) + (ver_text(v) + tail), range_acc(i, o, rest),
+    ensures
+        rest@ == tail, o@.len() == 1,
+        forall|w: VKey| #![trigger within(o@[0], w)] within(o@[0], w) <==> op_admits(op, key(v), w),
+{
+    broadcast use winnow_defs, grammar_defs;
+    reveal_strlit(">="); reveal_strlit(">"); reveal_strlit("<="); reveal_strlit("<");
+    let e: Seq<char> = i@;
+    lemma_primitive_reads_printed(op, v, tail);
+    assert(stops_version(tail));
+    assert(e[0] == '>' || e[0] == '<');
+    lemma_span_unique(e, |c: char| ws_char(c), 0);
+    assert(skip_ws(e) =~= e);
+    assert(!empty_alt(e));
+    assert(g_partial(e) is None) by {
+        assert(skip_lv(e) == e);
+        assert(g_xr(e) is None);
+        lemma_span_unique(e, |c: char| dg_char(c), 0);
+    }
+    assert(g_hyphen_ast(e) is None);
+    assert(at_term(tail));
+    let outs = choose|outs: Seq<Option<BoundSet>>| #[trigger] sep_all::<&'s str, Option<BoundSet>, &'s str, SemverParseError<&'s str>, _, _>(simple, space1::<SemverParseError<&'s str>>, i, outs, rest) && all_elem_ok(outs) && conj_post(outs, o@);
+    assert(outs.len() > 0);
+    let m = choose|m: &'s str| #[trigger] Parser::<&'s str, Option<BoundSet>, SemverParseError<&'s str>>::accepts(&simple, i, outs[0], m) && sep_tail::<&'s str, Option<BoundSet>, &'s str, SemverParseError<&'s str>, _, _>(simple, space1::<SemverParseError<&'s str>>, m, outs.drop_first(), rest);
+    assert(simple_acc(i, outs[0], m));
+    assert(primitive_acc(i, outs[0], m));
+    assert(m@ == tail);
+    lemma_span_unique(tail, |c: char| ws_char(c), 0);
+    assert(outs.drop_first().len() == 0);
+    assert(rest == m);
+    let x = choose|x: (Operation, Partial)| #[trigger] primitive_post(x, outs[0]) && x.0 == op && partial_is(x.1, full_pspec(v)) && wf_partial(x.1);
+    reveal(cut_cmp);
+    assert(outs[0] is Some);
+    assert(outs =~= seq![outs[0]]);
+    let b = outs[0]->Some_0;
+    assert(o@[0] == b);
+    lemma_texts_read_back(v.pre_release@);
+    lemma_idents_are_same(x.1.pre_release@, v.pre_release@, full_pspec(v).pre);
+    let kx = k4(pM(x.1), pm(x.1), pp(x.1), x.1.pre_release@);
+    assert forall|w: VKey| #![trigger within(b, w)] within(b, w) <==> op_admits(op, key(v), w) by {
+        lemma_same_key_same_order(kx, key(v), w);
+        lemma_k_flip(kx, w); lemma_k_flip(key(v), w);
+    }
+}
